@@ -312,7 +312,7 @@ def run(ctx):
         mcsets = [("3thr x 2ops", mc_defs(3, 2, 2, 0)), ("2thr x 3ops", mc_defs(2, 3, 3, 0)),
                   ("2thr x 3ops, real ToPages", mc_defs(2, 3, 3, 4, cachelow=0))]
     else:
-        mcsets = [("3thr x 3ops", mc_defs(3, 3, 3, 0)), ("2thr x 4ops", mc_defs(2, 4, 3, 0)),
+        mcsets = [("3thr x 3ops", mc_defs(3, 3, 3, 0, cachelow=0)), ("2thr x 4ops", mc_defs(2, 4, 3, 0)),
                   ("2thr x 4ops, real ToPages, 2 defrags", mc_defs(2, 4, 3, 4, cachelow=0, maxdefrag=2))]
     # the first configuration is the largest: it gets half of the machine
     share = [max(2, ncpu // 2)] + [max(2, (ncpu // 2 - 2) // (len(mcsets) - 1))] * (len(mcsets) - 1)
